@@ -321,8 +321,9 @@ fn build_frame(p: &Plan, k: usize, f: &InFrame, pids: &[Val], rpc_from: &Option<
             // exactly one field (another incarnation, another serial, a neighbouring number): nobody's
             let Some(Val::Pid { node, id, serial, creation }) = rpc_from.clone() else { return None };
             // (a neighbouring process number could be a real, later allocated identifier: not used)
-            let to = match f.seed % 2 {
-                0 => Val::Pid { node, id, serial, creation: creation.wrapping_add(1) },
+            let to = match f.seed % 3 {
+                2 if creation != 0 => Val::Pid { node, id, serial, creation: 0 },
+                0 | 2 => Val::Pid { node, id, serial, creation: creation.wrapping_add(1) },
                 _ => Val::Pid { node, id, serial: serial.wrapping_add(1), creation },
             };
             let pl = Val::tuple(vec![Val::atom("rex"), payload("near_miss", k, f.seed)]);
